@@ -809,12 +809,35 @@ func (s *Step) End() {
 
 // Audit collects everything the server emitted since the last audit and matches it against the
 // expectations of the current step (nil = nothing may be emitted except responses to requests).
-func (m *Model) Audit(exp []*Expect) {
+func (m *Model) Audit(exp []*Expect) { m.audit(exp, nil) }
+
+// AuditIgnoring audits like Audit(nil) but disregards everything the server sent to client ig
+// and everything that left relay sockets the model does not know (ig's own allocations): ig is an
+// attacker whose own, possibly valid, traffic is not under test.
+func (m *Model) AuditIgnoring(ig *RawClient) { m.audit(nil, ig) }
+
+func (m *Model) audit(exp []*Expect, ig *RawClient) {
 	w := m.W
 	var ems []*emission
 	for _, d := range w.Net.TakeSendLog() {
 		if d.Sock == nil || !w.IsServerSock(d.Sock) {
 			continue
+		}
+		if ig != nil {
+			if d.Dst.String() == ig.Addr.String() {
+				continue
+			}
+			if _, known := m.ByRelay[d.Src.String()]; !known {
+				isL := false
+				for _, l := range w.ServerUDP {
+					if l == d.Sock {
+						isL = true
+					}
+				}
+				if !isL {
+					continue
+				}
+			}
 		}
 		isListener := false
 		for _, l := range w.ServerUDP {
@@ -841,6 +864,12 @@ func (m *Model) Audit(exp []*Expect) {
 		}
 	}
 	for _, c := range w.Clients {
+		if ig != nil && (c == ig || (c.Name == ig.Name)) {
+			c.Collect()
+			c.Inbox = nil
+
+			continue
+		}
 		if c.IsTCP {
 			c.Collect()
 			keep := c.Inbox[:0]
